@@ -81,6 +81,14 @@ Theorem C05_writeback_refuted :
 Proof. exact c05_writeback_refuted. Qed.
 Print Assumptions C05_writeback_refuted.
 
+(* D10, second form: the send is accepted, but the object is then mutated through a pointer obtained earlier *)
+Theorem C05_writeback_mutation_refuted :
+  exists ops, admissible0 N.eq_dec w_dflt w_id w_id c_empty ops /\
+              ~ In Bad (fst (run N.eq_dec w_dflt w_id w_id c_empty ops)) /\
+              rets (fst (run N.eq_dec w_dflt w_id w_id c_empty ops)) <> rets (fst (spec_run N.eq_dec w_dflt s_empty ops)).
+Proof. exact c05_writeback_mutation_refuted. Qed.
+Print Assumptions C05_writeback_mutation_refuted.
+
 (* D11: no write-back, but a Get overlaps the in-flight save of its key *)
 Theorem C05_inflight_refuted :
   exists ops, no_writeback ops /\
